@@ -453,3 +453,88 @@ PROPS["C19"] = {
     "assumptions": ["indices >= 16 are outside the lookups' contract (callers pass a 4-bit window); they are not asserted",
                     "the cross-configuration comparison covers the seeded inputs of the listed harnesses, not all inputs"],
 }
+
+PROPS["C20"] = {
+    "title": "keys, points, scalars and tables are safe for concurrent read-only use",
+    "level": "exploration",
+    "level_text": "Conc.tla models N goroutines performing read-only operations on shared objects at memory-access grain; TLC shows (3 goroutines x 2 operations, all "
+                  "interleavings) that the FRAME CONDITION - no step of an operation writes a shared location - implies race freedom and that every call returns what "
+                  "it returns alone, and that a variant which parks a scratch value in the shared object violates both (non-vacuity). The implementation is bound to the "
+                  "frame condition by a -race build of the harness: 32..64 goroutines x {hedged and RFC 6979 signing, verify, recover, ECDH, ScalarMult, ScalarBaseMult, "
+                  "MultiScalarMult, DoubleScalarMult, encoders, point ops, key accessors, hash-to-curve, Schnorr sign/verify} on shared keys / a non-normalised point / "
+                  "scalars, under several GOMAXPROCS values and seeds; any race-detector report is a violation; Trace_Conc (stateful) requires every concurrent result to "
+                  "equal the sequential result of the same call and the deep memory images of all shared objects (unexported fields, cached encodings) and the table "
+                  "checksums to be unchanged; first use of the tables from 32 goroutines in a fresh process must agree with the sequential value.",
+    "level_note": "schedules are sampled (the Go scheduler) and the race detector is dynamic; trusted: TLC, the Go race detector, raw-memory accessors",
+    "exhaustive": [
+        {"spec": "MC_Conc", "cfg": "MC_Conc.cfg", "params": "mini43", "workers": 4},
+        {"spec": "MC_Conc", "cfg": "MC_Conc_buggy.cfg", "params": "mini43", "workers": 4, "expect_violation": "NoRace"},
+    ],
+    "drivers": [
+        {"driver": "conc", "trace": "Trace_Conc", "shards": 1, "build": ("-race",), "race": True, "tags": ("verif",)},
+        {"driver": "conc", "trace": "Trace_Conc", "shards": 1, "build": ("-race",), "race": True, "tags": ("verif", "purego"), "tiers": ("thorough",)},
+    ],
+    "require_classes": {"quick": ["base", "call", "frame_key", "frame_table", "frame_other", "init", "race_build", "many_goroutines"]},
+    "rule": "events are calls made concurrently by many goroutines on shared objects; a call is non-trivial (all are) when its result is compared with the sequential "
+            "result of the same (operation, argument) and the run was race-instrumented",
+    "assumptions": ["interleavings are those the Go scheduler produced in this run (several GOMAXPROCS values); the race detector only sees executed accesses"],
+}
+
+
+def _ct_funcs(work, files, drv, env):
+    """C17: list every function of the module with its coverage after running ONLY the secret-handling operations
+    (go tool covdata func) and hand the list to TLC as ct.Func events"""
+    import json as _j, os as _o, re as _re, subprocess as _sp
+    tag = "-".join(drv.get("tags", ("verif",)))
+    d = _o.path.join(work, "cov-" + tag)
+    e = dict(_o.environ, GOFLAGS="-mod=mod", GOPROXY="off", GOSUMDB="off", GOTOOLCHAIN="local")
+    r = _sp.run(["go", "tool", "covdata", "func", "-i=" + d], cwd=_o.path.join(work, "repo"), env=e, capture_output=True, text=True)
+    out = _o.path.join(work, "tr-ct-funcs-%s.ndjson" % tag)
+    n = 0
+    with open(out, "w") as fh:
+        for line in r.stdout.splitlines():
+            m = _re.match(r"^(\S+):(\d+):\s+(\S+)\s+([0-9.]+)%$", line.strip())
+            if not m or "/verifcmd/" in m.group(1) or m.group(1).endswith("verif_export.go") or m.group(1).endswith("verif_ref_copy.go"):
+                continue
+            name = m.group(3)
+            fh.write(_j.dumps({"ev": "ct.Func", "build": "purego" if "purego" in tag else "asm", "file": m.group(1).split("secp256k1-voi/")[-1],
+                               "name": name, "vartime": "vartime" in name.lower(), "covered": float(m.group(4)) > 0}) + "\n")
+            n += 1
+    if n == 0:
+        raise RuntimeError("go tool covdata func produced no function list: " + (r.stdout + r.stderr)[-500:])
+    files.append(out)
+    return {"functions_listed": env["extra_cov"].get("functions_listed", 0) + n}
+
+
+_COVER = ("-cover", "-covermode=atomic", "-coverpkg=gitlab.com/yawning/secp256k1-voi/...")
+PROPS["C17"] = {
+    "title": "secret-handling operations run a secret-independent control and lookup pattern",
+    "level": "exploration",
+    "level_text": "CT.tla defines constant time as a relation on observations (the bag of basic blocks executed and the sequence of table entries touched must be a "
+                  "function of the public input alone) and gives the observation semantics of the two window ladders; TLC shows on a miniature instance that the "
+                  "relation holds for the constant-time ladder for ALL secrets and fails for the Vartime twin (the observer is not blind). The implementation is bound "
+                  "by three observations of the real code, in both build configurations: (1) a coverage-instrumented build (-covermode=atomic over every package of "
+                  "the module): for field / scalar arithmetic, ScalarMult, ScalarBaseMult, MultiScalarMult, private-key import, public-key derivation, ECDH, hedged "
+                  "and RFC 6979 SignRaw, Schnorr key derivation and signing, the per-call block-counter vector is recorded for a family of secrets (0-heavy / F-heavy "
+                  "nibbles, 1, n-1, both signs of the split halves, odd / even public y, steered and random) with the public inputs fixed, and Trace_CT (stateful) "
+                  "requires it to be IDENTICAL across secrets - never compared with a fixed expected value; the Vartime twins are run as negative controls and must "
+                  "differ; (2) after running only secret-handling operations no function whose name contains Vartime may have been entered (go tool covdata func); "
+                  "(3) a page-fault oracle places lookup tables across an unreadable page: whether a lookup faults must not depend on the index (Trace_Lookup).",
+    "level_note": "secrets are sampled; a data-dependent memory index WITHOUT a branch outside the lookup routines is not visible to the block counters; hardware timing is "
+                  "out of scope. Trusted: Go's coverage instrumentation, TLC, SetPanicOnFault-based fault observation",
+    "exhaustive": [{"spec": "MC_CT", "cfg": "MC_CT.cfg", "params": "mini43", "workers": 1}],
+    "drivers": [
+        {"driver": "ct", "trace": "Trace_CT", "shards": 1, "build": _COVER, "env": {"VERIF_COVDIR": "{work}/cov-verif"}, "post": _ct_funcs},
+        {"driver": "ct", "trace": "Trace_CT", "shards": 1, "build": _COVER, "tags": _PG, "env": {"VERIF_COVDIR": "{work}/cov-verif-purego"}, "post": _ct_funcs},
+        {"driver": "lookup", "trace": "Trace_Lookup", "shards": 4},
+        {"driver": "lookup", "trace": "Trace_Lookup", "shards": 4, "tags": _PG},
+    ],
+    "require_classes": {"quick": ["obs_first", "obs_same", "secret_zero_heavy", "secret_f_heavy", "secret_one", "secret_nm1", "secret_random", "secret_neg_half",
+                                  "secret_pos_half", "secret_odd_y", "secret_even_y", "control_differs", "func_ct_covered", "func_vartime_unreached",
+                                  "build_asm", "build_purego", "op_field", "op_scalar", "op_mult", "op_basemult", "op_msm", "op_key", "op_ecdh", "op_sign",
+                                  "op_schnorr", "touch_ct", "touch_vartime_differs"]},
+    "rule": "one observation per (operation, fixed public input, secret); an observation is non-trivial (all are) when it is compared with the observation of another "
+            "secret for the same operation and public input; distinct_nontrivial counts distinct (operation, public input, secret) triples",
+    "assumptions": ["secrets are sampled families, not all secrets", "block counters cannot see branch-free data-dependent addressing outside the lookup routines",
+                    "micro-architectural timing is out of scope, as in the property"],
+}
